@@ -859,6 +859,21 @@ func ruleScanStart(c *Check, p *Prog) {
 		}
 	}
 	before := len(raise) > 0 && g.PathAvoiding(inits, nodeSet(raise), nil) == nil
+	// nothing else raises the height the scan starts from: what was retrieved below a higher
+	// start and not yet applied lives in memory only, and is never fetched again after a crash
+	for _, n := range g.Select(func(n *Node) bool {
+		st, ok := n.In.(*ssa.Store)
+		if !ok {
+			return false
+		}
+		at := TermOf(st.Addr, n.Ctx)
+		return at.Op == "field" && at.Name == "DAHeight" && !strings.HasSuffix(TermOf(st.Val, n.Ctx).String(), ".DA.StartHeight")
+	}) {
+		if g.PathAvoiding([]*Node{n}, nodeSet(inits), nil) == nil {
+			continue
+		}
+		okV, v = false, TermOf(n.In.(*ssa.Store).Val, n.Ctx)
+	}
 	if okV && guarded && before {
 		c.OK("C09-R7", "NewManager ⟂ cursor = max(state.DAHeight, configured start)", fn, p.InstrPos(inits[0].In), "the scan starts at the persisted DA height, raised to the configured start height when that is higher", true)
 	} else {
